@@ -11,6 +11,7 @@ From Coq Require Import List NArith ZArith Bool Permutation.
 Import ListNotations.
 Require Import MV.C19.Model MV.C19.Spec MV.C19.Exec MV.C19.ProofsKey MV.C19.ProofsSpec MV.C19.ProofsInv
                MV.C19.ProofsClauses MV.C19.ExecProofs.
+Require Import MV.Common.Interleave MV.C19.ConcModel MV.C19.ConcLog MV.C19.ConcInv MV.C19.ConcStep MV.C19.ConcProofs.
 Open Scope N_scope.
 
 Theorem C19_model_meets_spec : forall h, run2 rinit rinit h = spec2 h.
@@ -143,3 +144,74 @@ Theorem C19_example : run_case ex_history =
                  e_desc := Some [102]; e_val := VC 4 |} ]);
     (true, []) ].
 Proof. vm_compute. reflexivity. Qed.
+
+(* ------------------------------------------------------------------------------------------------
+   Concurrent use: the interleaving model of ConcModel.v (threads of Register / Upd / Snapshot
+   operations on one recorder; atomic steps: track, get_or_create, one update, collect handles,
+   clone seen, one load / drain per visited key, return).  [final ps sched] is the configuration
+   reached from the empty recorder by the threads running the programs [ps] under the schedule
+   [sched]; the theorems hold for EVERY schedule, any number of threads and operations.  [slog] is
+   the history of the steps performed.  Assumed, not proved here: C06 (one storage per (kind, key),
+   get_or_create atomic) and C05 (push / clear_with atomic, outside its open late-claim class).    *)
+
+(* (a) per histogram: the lists shown by its successive drains, then what is still in the bucket, are
+   exactly the values whose record step happened, each once, in step order *)
+Theorem C19_conc_conservation : forall ps sched t, fst t = Histogram ->
+  let s := fst (final ps sched) in
+  concat (ldrained t (slog s)) ++ resident t (sreg s) = lrecorded t (slog s).
+Proof. exact conc_conservation. Qed.
+
+Theorem C19_conc_no_invention_no_duplicate : forall ps sched t z, fst t = Histogram ->
+  let s := fst (final ps sched) in
+  (count_occ Z.eq_dec (concat (ldrained t (slog s))) z + count_occ Z.eq_dec (resident t (sreg s)) z
+   = count_occ Z.eq_dec (lrecorded t (slog s)) z)%nat.
+Proof. exact conc_no_invention_no_duplicate. Qed.
+
+(* (b) a drain shows the values recorded before it and after the previous drain of that key *)
+Theorem C19_conc_drain_shows_since_previous : forall ps sched l1 t vs l2,
+  slog (fst (final ps sched)) = l1 ++ LDrain t vs :: l2 ->
+  fst t = Histogram /\ vs = lrecorded t (since_last_drain t l1).
+Proof. exact conc_drain_shows_since_previous. Qed.
+
+(* (c) a counter / gauge reading is the fold of the updates whose step preceded the load *)
+Theorem C19_conc_load_is_fold : forall ps sched l1 t v l2,
+  slog (fst (final ps sched)) = l1 ++ LLoad t v :: l2 ->
+  fst t <> Histogram /\
+  v = match fst t with
+      | Counter => VC (fold_left capply (lupds t l1) 0)
+      | Gauge => VG (fold_left gapply (lupds t l1) 0%Z)
+      | Histogram => v
+      end.
+Proof. exact conc_load_is_fold. Qed.
+
+(* every entry of every finished snapshot is the value of one load / drain step of the history *)
+Theorem C19_conc_entries_are_steps : forall ps sched l r e,
+  In l (snd (final ps sched)) -> In r (outs l) -> In e (sr_out r) ->
+  entry_logged (slog (fst (final ps sched))) e.
+Proof. exact conc_entries_are_steps. Qed.
+
+(* (d) a finished snapshot [r] ([sr_lp r] = the history at its first step): every key whose
+   get_or_create step precedes the snapshot's first step is listed; no two entries are equal keys;
+   the entries are in first-registration order (a subsequence of keep_first of the track steps) *)
+Theorem C19_conc_listing : forall ps sched l r,
+  In l (snd (final ps sched)) -> In r (outs l) ->
+  let s := fst (final ps sched) in
+  Prefix (sr_lp r) (slog s) /\
+  (forall t, In (LGoc t) (sr_lp r) -> existsb (fun y => teqb t y) (map fst (sr_out r)) = true) /\
+  ForallOrdPairs (fun a b => teqb a b = false) (map fst (sr_out r)) /\
+  Subseq (map fst (sr_out r)) (keep_first [] (tracked (slog s))).
+Proof. exact conc_listing. Qed.
+
+Theorem C19_conc_seen_is_first_registration_order : forall ps sched,
+  sseen (fst (final ps sched)) = keep_first [] (tracked (slog (fst (final ps sched)))).
+Proof. exact conc_seen_is_first_registration_order. Qed.
+
+(* a racing schedule evaluated: two threads first-register the same histogram key (one tracks first,
+   the other creates the storage first), records race the first snapshot's collect / clone / drain, a
+   counter is tracked before but created after the second snapshot collected the handles (skipped) *)
+Theorem C19_conc_example :
+  map sr_out (outs (nth 2 (snd (final ex_progs ex_sched)) (init_local [])))
+  = [ [(exk_h 0, VH [1; 3; 2]%Z)]; [(exk_h 0, VH [4]%Z)] ] /\
+  sreg (fst (final ex_progs ex_sched)) = [(exk_h 1, SH []); (exk_c, SC 5)] /\
+  sseen (fst (final ex_progs ex_sched)) = [exk_h 0; exk_c].
+Proof. exact conc_example. Qed.
